@@ -18,6 +18,27 @@ def IsUB (a b u : Ty) : Prop := Le a u ∧ Le b u
 /-- `c` is the least upper bound of `a` and `b` in the implicit-cast order -/
 def IsLUB (a b c : Ty) : Prop := IsUB a b c ∧ ∀ u, IsUB a b u → Le c u
 
+/-- `a` and `b` are implicitly castable to each other.  With user-defined scalars the implicit-cast
+    relation is only a preorder: a derived scalar and its concrete base are equivalent. -/
+def Equiv (a b : Ty) : Prop := Le a b ∧ Le b a
+
+/-- `a` converts to `b` without a run-time check (value inclusion): the order in which a derived
+    scalar is BELOW its base and a base is not below its derivations. -/
+def Conv (a b : Ty) : Prop := convertible a b = true
+
+mutual
+/-- no user-defined scalar occurs in the type -/
+def plain : Ty → Bool
+  | .scalar (.derived _ _) => false
+  | .scalar _ => true
+  | .obj _ => true
+  | .tuple ts => plainL ts
+  | .array t => plain t
+def plainL : List Ty → Bool
+  | [] => true
+  | t :: ts => plain t && plainL ts
+end
+
 /-! ## table obligations on the scalar cast graph (all finite, all generated) -/
 
 def lubB (a b c : Scalar) : Bool :=
@@ -90,7 +111,7 @@ def promote (f : Fn) (a b : Scalar) : Option Scalar :=
 
 def isScalarRet (r : Res) (s : Option Scalar) : Bool :=
   match r, s with
-  | .ok bd, some x => bd.ret == .scalar x
+  | .ok bd, some x => bd.ret == .scalar (.base x)
   | .noMatch, none => true
   | _, _ => false
 
@@ -110,7 +131,7 @@ def callOK (f : Fn) (ts : List Ty) : Bool :=
   | .ok bd =>
     (match primRet f bd.ptys with
      | some r => r == bd.ret
-     | none => false) && implCastableL ts bd.ptys
+     | none => false) && convertibleL ts bd.ptys
   | _ => true
 
 def numericTableOK : Bool :=
@@ -118,17 +139,17 @@ def numericTableOK : Bool :=
     (operOverloads f).all (arithOverloadOK f) &&
     numeric.all fun a =>
       ((f != .op_plus && f != .op_minus) ||
-        isScalarRet (resolve f [.scalar a]) (some a)) &&
+        isScalarRet (resolve f [.scalar (.base a)]) (some a)) &&
       numeric.all fun b =>
-        isScalarRet (resolve f [.scalar a, .scalar b]) (promote f a b) &&
-        callOK f [.scalar a, .scalar b]
+        isScalarRet (resolve f [.scalar (.base a), .scalar (.base b)]) (promote f a b) &&
+        callOK f [.scalar (.base a), .scalar (.base b)]
 
 def compareTableOK : Bool :=
   compare.all fun f =>
     numeric.all fun a => numeric.all fun b =>
-      callOK f [.scalar a, .scalar b] &&
-      match resolve f [.scalar a, .scalar b] with
-      | .ok bd => bd.ret == .scalar .bool && (commonScalar a b).isSome
+      callOK f [.scalar (.base a), .scalar (.base b)] &&
+      match resolve f [.scalar (.base a), .scalar (.base b)] with
+      | .ok bd => bd.ret == .scalar (.base .bool) && (commonScalar a b).isSome
       | .noMatch => (commonScalar a b).isNone
       | .ambiguous _ => false
 
